@@ -108,6 +108,58 @@ func SignTxWith(signer Account, accNum, seq uint64, gas uint64, msgs ...sdk.Msg)
 	return txCfg.TxEncoder()(b.GetTx())
 }
 
+// SignTxMulti builds a SIGN_MODE_DIRECT transaction that several accounts sign (one per distinct message creator, in the
+// order GetSigners gives). seqDelta[i] is added to signer i's real sequence number (0 = correct), corrupt[i] flips a bit
+// of signer i's otherwise well-formed signature: the transactions a careless or hostile client sends.
+func (c *Chain) SignTxMulti(signers []Account, seqDelta []int64, corrupt []bool, gas uint64, msgs ...sdk.Msg) ([]byte, error) {
+	ctx := c.DeliverCtx()
+	txCfg := encCfg.TxConfig
+	b := txCfg.NewTxBuilder()
+	if err := b.SetMsgs(msgs...); err != nil {
+		return nil, err
+	}
+	b.SetGasLimit(gas)
+	b.SetFeeAmount(sdk.NewCoins())
+	accNums, seqs := make([]uint64, len(signers)), make([]uint64, len(signers))
+	empty := make([]signing.SignatureV2, len(signers))
+	for i, s := range signers {
+		acc := c.App.AccountKeeper.GetAccount(ctx, s.Addr)
+		if acc == nil {
+			return nil, fmt.Errorf("signer %s has no account", s.Bech)
+		}
+		accNums[i] = acc.GetAccountNumber()
+		q := int64(acc.GetSequence()) + seqDelta[i]
+		if q < 0 {
+			q = 0
+		}
+		seqs[i] = uint64(q)
+		empty[i] = signing.SignatureV2{PubKey: s.Priv.PubKey(), Sequence: seqs[i],
+			Data: &signing.SingleSignatureData{SignMode: signing.SignMode_SIGN_MODE_DIRECT}}
+	}
+	if err := b.SetSignatures(empty...); err != nil {
+		return nil, err
+	}
+	sigs := make([]signing.SignatureV2, len(signers))
+	for i, s := range signers {
+		sd := authsigning.SignerData{ChainID: ChainID, AccountNumber: accNums[i], Sequence: seqs[i]}
+		s2, err := tx.SignWithPrivKey(signing.SignMode_SIGN_MODE_DIRECT, sd, b, s.Priv, txCfg, seqs[i])
+		if err != nil {
+			return nil, err
+		}
+		if corrupt[i] {
+			d := s2.Data.(*signing.SingleSignatureData)
+			bz := append([]byte{}, d.Signature...)
+			bz[len(bz)/2] ^= 0x10
+			s2.Data = &signing.SingleSignatureData{SignMode: d.SignMode, Signature: bz}
+		}
+		sigs[i] = s2
+	}
+	if err := b.SetSignatures(sigs...); err != nil {
+		return nil, err
+	}
+	return txCfg.TxEncoder()(b.GetTx())
+}
+
 // Query runs an ABCI query (gRPC path, proto-encoded request) against the last committed state, the way an RPC
 // client would while a block is being executed; panics are reported as errors, nothing else is returned.
 func (c *Chain) Query(path string, data []byte) (code uint32, panicked bool) {
